@@ -114,7 +114,15 @@ type snapRec struct {
 	OY    int        `json:"oy"`
 	IDs   []int      `json:"ids"`
 	Steps []stepRec  `json:"steps"` // intermediate results of addPointsAndSnap (only with -steps)
+	InMut bool       `json:"inmut"` // the call changed the polygon value it was given
 }
+
+// the polygon value of the previous call of the group: the "again" variant snaps the SAME value a second time (a call that
+// rewrites its argument in place is only visible then)
+var (
+	reuseInput bool
+	lastInput  geom.Polygon
+)
 
 // stepRec: one intermediate result reported through snap.VerifTrace, projected like the final result
 type stepRec struct {
@@ -276,6 +284,13 @@ func runSnap(sg *snapGrid, poly lpoly, ids []int, cfg snap.Config, w int) snapRe
 		}
 		defer func() { snap.VerifTrace = nil }()
 	}
+	if reuseInput && lastInput != nil && len(lastInput) == len(gp) {
+		gp = lastInput
+	}
+	before := make(geom.Polygon, len(gp))
+	for i := range gp {
+		before[i] = append([][2]float64{}, gp[i]...)
+	}
 	t0 := time.Now()
 	func() {
 		defer func() {
@@ -286,6 +301,12 @@ func runSnap(sg *snapGrid, poly lpoly, ids []int, cfg snap.Config, w int) snapRe
 		res = snap.SnapPolygon(gp, sg.g.tms, ids, cfg)
 		rec.Out = "ok"
 	}()
+	for i := range gp {
+		if !slices.Equal(gp[i], before[i]) {
+			rec.InMut = true
+		}
+	}
+	lastInput = gp
 	rec.Ms = int(time.Since(t0).Milliseconds())
 	zs := make([]int, 0, len(res))
 	for z := range res {
@@ -394,7 +415,9 @@ func snapTrace(args []string) int {
 		}
 		emit("base", poly, req, cfg)
 		if want["again"] {
+			reuseInput = true
 			emit("again", poly, req, cfg)
+			reuseInput = false
 		}
 		if want["keep"] {
 			c := cfg
